@@ -140,6 +140,8 @@ structure Stored where
   mft : MftFile
   number : Nat
   thisUpdate : Int
+  /-- `not_after`: expiry of the manifest's EE certificate (used by cleanup) -/
+  notAfter : Int
   /-- `ca_repository` -/
   repo : Uri
   /-- the stored CRL bytes -/
@@ -310,7 +312,7 @@ def processCollectedWith (cfg : Cfg) (now : Int) (ca : CaCtx) (f : Fetched) (st 
           match runEntries cfg now ca vm f.files (reorder vm.mft.entries) [] [] [] with
           | .complete acc kids objs =>
             .done ⟨acc, kids, true,
-              some ⟨mf, vm.mft.number, vm.mft.thisUpdate, ca.info.repo, crl, objs⟩⟩
+              some ⟨mf, vm.mft.number, vm.mft.thisUpdate, vm.mft.ee.notAfter, ca.info.repo, crl, objs⟩⟩
           | .aborted acc => .fallback acc st'
 
 /-- Removes the element at position `k`. -/
@@ -441,6 +443,16 @@ def setKey {α : Type} (k : Nat) (v : Option α) : List (Nat × α) → List (Na
 def Store.point (s : Store) (u : Uri) : Option Stored := lookup u s.points
 def Store.setPoint (s : Store) (u : Uri) (v : Option Stored) : Store :=
   { s with points := setKey u v s.points }
+/-- `store::Run::cleanup` as far as the model's store goes: stored publication points whose
+manifest EE certificate has expired (`retain`: `not_after > now`) and stored trust anchor
+certificates that do not decode or have expired (`cleanup_ta`) are removed. -/
+def Store.cleanup (s : Store) (now : Int) : Store :=
+  { points := s.points.filter (fun p => decide (p.2.notAfter > now))
+    tas := s.tas.filter (fun p =>
+      match p.2.cert with
+      | some c => decide (c.notAfter > now)
+      | none => false) }
+
 def Store.ta (s : Store) (u : Uri) : Option TaFile := lookup u s.tas
 def Store.setTa (s : Store) (u : Uri) (v : TaFile) : Store :=
   { s with tas := setKey u (some v) s.tas }
@@ -513,18 +525,26 @@ def runOnce (fix : Bool) (cfg : Cfg) (now : Int) (view : Option View) (tals : Li
       (acc.1 ++ r.1, r.2))
     ([], store)
 
-/-- A run of a scenario: the clock and the collector's view (`none`: no collector). -/
+/-- A run of a scenario: the clock, the collector's view (`none`: no collector) and whether
+the store is cleaned up afterwards (`run.cleanup()`; skipped with `dirty`). -/
 structure Run where
   now : Int
   view : Option View
+  cleanup : Bool
   deriving Repr, Inhabited
+
+/-- A complete run as `ValidationReport::process` performs it: validation, then cleanup. -/
+def runFull (fix : Bool) (cfg : Cfg) (tals : List Tal) (r : Run) (store : Store) :
+    List Item × Store :=
+  let out := runOnce fix cfg r.now r.view tals store
+  (out.1, if r.cleanup then out.2.cleanup r.now else out.2)
 
 /-- Consecutive runs over a changing server; returns each run's payload and store. -/
 def runMany (fix : Bool) (cfg : Cfg) (tals : List Tal) :
     List Run → Store → List (List Item × Store)
   | [], _ => []
   | r :: rest, store =>
-    let out := runOnce fix cfg r.now r.view tals store
+    let out := runFull fix cfg tals r store
     out :: runMany fix cfg tals rest out.2
 
 end RoutinatorModel.Engine
